@@ -419,6 +419,12 @@ namespace GeographicLib {
     east = Math::AngNormalize(east);
     if (east <= west)
       east += Math::td;         // east - west in (0, 360]
+    using std::isnan;
+    if (isnan(south) || isnan(north) || isnan(west) || isnan(east)) {
+      // Treat an undefined area like an empty one
+      CacheClear();
+      return;
+    }
     int
       iw = int(floor(west * _rlonres)),
       ie = int(floor(east * _rlonres)),
